@@ -100,6 +100,24 @@ func checkC01(c *km.Ctx) {
 		}
 	}
 	checkAuthBits(c, s, checkAuth, "R-C01-3")
+
+	// a session cookie counts as a credential only while its signed claims say so: issuer, audience, kind,
+	// not-before and expiry are the obligations of C04's consumers of the session token type, borrowed here
+	// (forged / foreign-issuer / other-kind / not-yet-valid / expired cookies must be refused by this endpoint)
+	r.Rule("R-C01-5", "the session cookie is honoured only with issuer == this server, audience[0] == this server, its own kind, not-before <= now and expiry not passed (C04's obligations for the session token consumers)", 3)
+	r.Remap = func(rule, fn, construct string) (string, bool) {
+		if rule != "R-C04-2" && rule != "R-C04-3" && rule != "R-C04-4" {
+			return "", false
+		}
+		if strings.Contains(fn, "getAuthInfoFromJWT") || strings.Contains(fn, "checkAuth") || strings.Contains(construct, "authInfoJWT") || strings.Contains(fn, "parseVerifiedAuthJWT") {
+			return "R-C01-5", true
+		}
+		return "", false
+	}
+	saveExplain, saveND, saveAs := r.Explain, r.NotDecided, r.Assume
+	checkC04(c)
+	r.Explain, r.NotDecided, r.Assume = saveExplain, saveND, saveAs
+	r.Remap = nil
 }
 
 // isURLTarget: v is r.URL.Path[len(pattern):]
